@@ -429,6 +429,7 @@ struct Shared {
 }
 
 static NOTIFIED: AtomicBool = AtomicBool::new(false);
+static GUNWIND: AtomicBool = AtomicBool::new(false);
 
 fn worker_script(sched: &Arc<Sched>, sh: &Arc<Shared>, ops: &[Value]) {
     for op in ops {
@@ -674,7 +675,16 @@ fn main_op(sched: &Arc<Sched>, sh: &Arc<Shared>, ms: &mut MainState, op: &Value)
         }
         "dropguard" => {
             sched.hi(r#""e":"guard_drop_begin""#.to_string());
-            drop(ms.take_guard());
+            let g = ms.take_guard();
+            if GUNWIND.load(Ordering::SeqCst) {
+                // dropped by unwinding: the code that owns the guard panics
+                let _ = std::panic::catch_unwind(std::panic::AssertUnwindSafe(move || {
+                    let _owned = g;
+                    panic!("scripted: unwinding guard drop");
+                }));
+            } else {
+                drop(g);
+            }
             sched.hi(r#""e":"guard_drop_end""#.to_string());
         }
         "psend" => {
@@ -741,6 +751,7 @@ fn run_case(sched: &Arc<Sched>, case: &Value, idx: usize) {
         ));
     }
     NOTIFIED.store(false, Ordering::SeqCst);
+    GUNWIND.store(case["gunwind"].as_bool().unwrap_or(false), Ordering::SeqCst);
     let kind = case["kind"].as_str().unwrap();
     {
         let mut hp = HashMap::new();
